@@ -5,7 +5,7 @@ property C03's model of condition.py), a source-level interpreter (JavaScript me
 comparison of the really emitted functions, run in mcvm, against it.
 
 Program tree (plain tuples):
-  ("say", text) | ("set", var, k) | ("add", var, k) | ("sub", var, k)
+  ("say", text) | ("set", var, k) | ("add", var, k) | ("sub", var, k) | ("call", fname)   `fname();`
   ("if", [(cond, body), ...], else_body | None)
   ("while", cond, body) | ("dowhile", body, cond) | ("for", init_cmds, cond, step_cmds, body)
 cond = list of items (a conjunction); item = ("atom", atom) | ("or", [[atom, ...], ...]) | ("f", F)
@@ -190,6 +190,8 @@ def stmt_src(s, ind=1):
         return f"{pad}{s[1]} += {s[2]};"
     if k == "sub":
         return f"{pad}{s[1]} -= {s[2]};"
+    if k == "call":
+        return f"{pad}{s[1]}();"
     if k == "if":
         out = []
         for i, (c, body) in enumerate(s[1]):
@@ -223,6 +225,17 @@ def prog_src(body, fname="f"):
     return f"function {fname}() {{\n{body_src(body)}\n}}\n"
 
 
+def item_functions(it):
+    """[(name, body)] of the pack in source order; the entry point is always `f`"""
+    more = it.get("more") or {}
+    order = it.get("order") or ["f"] + list(more)
+    return [(n, it["prog"] if n == "f" else more[n]) for n in order]
+
+
+def pack_src(it):
+    return "".join(prog_src(b, n) for n, b in item_functions(it))
+
+
 # ------------------------------------------------------------------ Coq terms
 
 def score_term(v, cert):
@@ -244,12 +257,14 @@ def cmd_term(s, cert):
         return f"CAdd {score_term(s[1], cert)} {coq_z(s[2])}"
     if k == "sub":
         return f"CRemove {score_term(s[1], cert)} {coq_z(s[2])}"
+    if k == "call":
+        return f"CCall {coq_str('TEST:' + s[1])}"
     raise ValueError(k)
 
 
 def stmt_term(s, cert):
     k = s[0]
-    if k in ("say", "set", "add", "sub"):
+    if k in ("say", "set", "add", "sub", "call"):
         return f"SCmd ({cmd_term(s, cert)})"
     if k == "if":
         b = "BNil"
@@ -275,18 +290,21 @@ def stmts_term(body, cert):
     return t
 
 
-def case_term(body, cert, res, ns="TEST"):
-    """Run.C04.case for one compiled program (res = jmc_run result)"""
+def case_term(it, cert, res, ns="TEST"):
+    """Run.C04.case for one compiled pack (res = jmc_run result)"""
+    funs = item_functions(it)
     if not res["ok"]:
-        return f'mkCase {names_term(cert, ns)} (fun nm => {stmts_term(body, cert)}) "<error>" []'
+        fl = "; ".join(f'({coq_str(n)}, (fun nm => {stmts_term(b, cert)}), "<error>")' for n, b in funs)
+        return f"mkCase {names_term(cert, ns)} [{fl}] []"
     fns = real_functions(res, ns)
-    user = fns.pop("f", "<missing function f>")
+    users = {n: fns.pop(n, f"<missing function {n}>") for n, _ in funs}
     priv = [(f"{ns}:{k}", v) for k, v in sorted(fns.items()) if k.startswith(cert["PRIVATE"] + "/")]
     other = [k for k in fns if not k.startswith(cert["PRIVATE"] + "/") and k not in (cert["LOAD"], cert["TICK"])]
     if other:
-        user = "<unexpected functions: %s>" % ",".join(other)
+        users["f"] = "<unexpected functions: %s>" % ",".join(other)
     pl = "; ".join(f"({coq_str(k)}, {coq_str(v)})" for k, v in priv)
-    return f"mkCase {names_term(cert, ns)} (fun nm => {stmts_term(body, cert)}) {coq_str(user)} [{pl}]"
+    fl = "; ".join(f"({coq_str(n)}, (fun nm => {stmts_term(b, cert)}), {coq_str(users[n])})" for n, b in funs)
+    return f"mkCase {names_term(cert, ns)} [{fl}] [{pl}]"
 
 
 def real_functions(res, ns="TEST"):
@@ -343,9 +361,11 @@ def cond_true(cond, sc, var):
 class Interp:
     """JavaScript meaning of a program tree on a score dictionary; say-trace recorded."""
 
-    def __init__(self, sc, var, budget=400):
+    def __init__(self, sc, var, budget=400, funcs=None):
         self.sc, self.var, self.budget, self.trace = dict(sc), var, budget, []
         self.iters = 0
+        self.funcs = funcs or {}
+        self.depth = 0
 
     def tick(self):
         self.budget -= 1
@@ -367,6 +387,13 @@ class Interp:
             sc[(s[1], var)] = wrap(sc.get((s[1], var), 0) + s[2])
         elif k == "sub":
             sc[(s[1], var)] = wrap(sc.get((s[1], var), 0) - s[2])
+        elif k == "call":
+            self.tick()
+            self.depth += 1
+            if self.depth > 40:
+                raise Diverge()
+            self.run(self.funcs[s[1]])
+            self.depth -= 1
         elif k == "if":
             for c, body in s[1]:
                 if cond_true(c, sc, var):
@@ -430,14 +457,14 @@ def run_real(fns, var, init, ns="TEST", max_steps=200000, max_depth=3000):
     return vm
 
 
-def semantic_failure(body, fns, cert, states, ns="TEST", budget=400):
+def semantic_failure(body, fns, cert, states, ns="TEST", budget=400, funcs=None):
     """Run the really emitted functions from every state; compare say-trace and the user
     variables with the source-level meaning.  Returns (failure | None, n_runs, n_skipped, max_iters)."""
     var = cert["VAR"]
     runs = skipped = 0
     max_iters = 0
     for init in states:
-        it = Interp(init, var, budget)
+        it = Interp(init, var, budget, funcs)
         try:
             it.run(body)
         except Diverge:
@@ -466,12 +493,15 @@ def semantic_failure(body, fns, cert, states, ns="TEST", budget=400):
     return None, runs, skipped, max_iters
 
 
-def states_for(body, cert, values=(0, 1), cap=64, rng=None, extra=(), domains=None):
+def states_for(body, cert, values=(0, 1), cap=64, rng=None, extra=(), domains=None, more=None):
     """initial states: every assignment of `values` (or of its own domain) to the program's variables
     (capped, then sampled)"""
     import itertools
     var = cert["VAR"]
-    vs = [v for v in prog_vars(body) if not v.startswith("$L")]
+    acc = prog_vars(body)
+    for b in (more or {}).values():
+        prog_vars(b, acc)
+    vs = [v for v in acc if not v.startswith("$L")]
     doms = [tuple((domains or {}).get(v, values)) for v in vs]
     total = 1
     for dm in doms:
@@ -780,6 +810,49 @@ def random_program(rng, depth=3, loops=True, nvars=3):
     return flatten_seq(body)
 
 
+def insert_calls(rng, body, callee, n=1):
+    """the body with n `callee();` statements inserted at random places (also inside branch and loop bodies)"""
+    def places(b, acc):
+        acc.append(b)
+        for s in b:
+            if s[0] == "if":
+                for _c, bb in s[1]:
+                    places(bb, acc)
+                if s[2] is not None:
+                    places(s[2], acc)
+            elif s[0] == "while":
+                places(s[2], acc)
+            elif s[0] == "dowhile":
+                places(s[1], acc)
+            elif s[0] == "for":
+                places(s[4], acc)
+        return acc
+    for _ in range(n):
+        b = rng.choice(places(body, []))
+        b.insert(rng.randrange(len(b) + 1), ("call", callee))
+    return body
+
+
+def random_pack(rng, depth=2, loops=True, nvars=3, helpers=1):
+    """a pack of several user functions: f (the entry point) calls g (which may call h); every function contains
+    chains / loops of its own, so that the private-function numbering runs across function boundaries.
+    -> dict(prog=, more=, order=)"""
+    nm = Names()
+    vars_ = CVARS[:nvars]
+    names = ["g", "h"][:helpers]
+    bodies = {}
+    for i, n in reversed(list(enumerate(names))):
+        b = flatten_seq(random_body(rng, nm, depth, vars_, loops) + [nm.say(n + "end")])
+        if i + 1 < len(names):
+            insert_calls(rng, b, names[i + 1], 1)
+        bodies[n] = b
+    f = flatten_seq(random_body(rng, nm, depth, vars_, loops) + [nm.say("end")])
+    insert_calls(rng, f, "g", rng.choice([1, 1, 2]))
+    order = ["f"] + names
+    rng.shuffle(order)
+    return dict(prog=f, more=bodies, order=order)
+
+
 # ------------------------------------------------------------------ fast evaluation of case files
 # Coq elaborates string literals slowly (~25 KB/s).  The generated files therefore define every
 # distinct word once and build every text from them *exactly*:  text = join "\n" (map (join " ") lines).
@@ -906,7 +979,7 @@ def lines_of(body):
     n = 0
     for s in body:
         k = s[0]
-        if k in ("say", "set", "add", "sub"):
+        if k in ("say", "set", "add", "sub", "call"):
             n += 1
         elif k == "if":
             if len(s[1]) == 1 and s[2] is None:
@@ -1000,39 +1073,53 @@ def size_of(body):
     return n
 
 
-def minimise(body, cert, fail, rounds=10, per_round=80):
-    """greedy shrinking of a semantically failing program (each candidate is recompiled with the real compiler)"""
+def minimise(body, cert, fail, rounds=10, per_round=80, more=None, order=None):
+    """greedy shrinking of a semantically failing pack (each candidate is recompiled with the real compiler):
+    the entry function and the other functions of the pack are shrunk.  -> (body, failure, more)"""
     from lib import compile_batch
-    best, best_fail = body, fail
+    best, best_more, best_fail = body, dict(more or {}), fail
+
+    def src_of(c, m):
+        return pack_src(dict(prog=c, more=m, order=order)) if m else prog_src(c)
     for _ in range(rounds):
-        cands = [c for c in sub_programs(best) if c][:per_round]
+        cands = [(c, best_more) for c in sub_programs(best) if c]
+        for n, b in best_more.items():
+            cands += [(best, {**best_more, n: nb}) for nb in sub_programs(b) if nb]
+        cands.sort(key=lambda cm: size_of(cm[0]) + sum(size_of(b) for b in cm[1].values()))
+        cands = cands[:per_round]
         if not cands:
             break
-        res = compile_batch([dict(src=prog_src(c), cert=cert_text(cert)) for c in cands], chunk=20)
+        res = compile_batch([dict(src=src_of(c, m), cert=cert_text(cert)) for c, m in cands], chunk=20)
         found = None
-        for c, r in sorted(zip(cands, res), key=lambda cr: size_of(cr[0])):
+        for (c, m), r in zip(cands, res):
             if not r["ok"]:
                 continue
             init = {tuple(k.split(" ", 1)): v for k, v in best_fail["init"].items()} if "init" in best_fail else {}
-            init = {k: v for k, v in init.items() if k[0] in prog_vars(c)}
-            states = [init] + states_for(c, cert, cap=32, rng=__import__("random").Random(0))
-            f, *_ = semantic_failure(c, real_functions(r), cert, states)
+            keep = prog_vars(c)
+            for b in m.values():
+                prog_vars(b, keep)
+            init = {k: v for k, v in init.items() if k[0] in keep}
+            states = [init] + states_for(c, cert, cap=32, rng=__import__("random").Random(0), more=m)
+            try:
+                f, *_ = semantic_failure(c, real_functions(r), cert, states, funcs=m)
+            except KeyError:          # a call of a function that was shrunk away
+                continue
             if f:
-                found = (c, f)
+                found = (c, m, f)
                 break
         if not found:
             break
-        best, best_fail = found
-    return best, best_fail
+        best, best_more, best_fail = found
+    return best, best_fail, best_more
 
 
 def check_programs(ck, items, tier, what):
     """items: list of dict(prog=…, cert=index, stream=…).  Compiles with the real compiler, evaluates the
     correspondence in Coq, runs the search on every case, reports violations.  Returns statistics."""
     from lib import compile_batch, eval_strings
-    jobs = [dict(src=it.get("src") or prog_src(it["prog"]), cert=cert_text(CERTS[it["cert"]])) for it in items]
+    jobs = [dict(src=jmc_src(it), cert=cert_text(CERTS[it["cert"]])) for it in items]
     results = compile_batch(jobs, chunk=100)
-    terms = [case_term(it["prog"], CERTS[it["cert"]], r) for it, r in zip(items, results)]
+    terms = [case_term(it, CERTS[it["cert"]], r) for it, r in zip(items, results)]
     bad, errs = eval_cases_fast(ck.prop, COQ_HEADER, terms, per_file=250)
     for e in errs:
         ck.violation(dict(kind="correspondence-file-failed", log=e), no_input=True)
@@ -1048,12 +1135,12 @@ def check_programs(ck, items, tier, what):
             continue
         cert = CERTS[it["cert"]]
         states = states_for(it["prog"], cert, values=values, cap=max(it.get("cap", 0), 48 if tier == "quick" else 128),
-                            rng=ck.rng, domains=it.get("values"))
+                            rng=ck.rng, domains=it.get("values"), more=it.get("more"))
         # the same states again with stale scratch scores left behind by earlier code
         stale = {("__if_else__", cert["VAR"]): 1, ("__logic__0", cert["VAR"]): 1, ("__logic__1", cert["VAR"]): 1,
                  ("__logic__2", cert["VAR"]): 1}
         states = states + [{**s, **stale} for s in states[::2]]
-        f, nr, sk, mi = semantic_failure(it["prog"], real_functions(r), cert, states)
+        f, nr, sk, mi = semantic_failure(it["prog"], real_functions(r), cert, states, funcs=it.get("more"))
         n_runs += nr
         n_skipped += sk
         key = "0" if mi == 0 else "1" if mi == 1 else "2-5" if mi <= 5 else ">5"
@@ -1071,9 +1158,10 @@ def check_programs(ck, items, tier, what):
             continue
         seen_sig.add(sig)
         reported += 1
-        small, sf = (it["prog"], f) if it.get("src") else minimise(it["prog"], cert, f)
-        ck.violation(dict(kind="semantic-failure", what=what, source=it.get("src") or prog_src(small), jmc_txt=cert,
-                          program=small, failure=sf, original_source=jmc_src(it), stream=it["stream"],
+        small, sf, smore = (it["prog"], f, it.get("more")) if it.get("src") else \
+            minimise(it["prog"], cert, f, more=it.get("more"), order=it.get("order"))
+        ck.violation(dict(kind="semantic-failure", what=what, source=it.get("src") or jmc_src(dict(it, prog=small, more=smore)), jmc_txt=cert,
+                          program=small, more=smore or None, failure=sf, original_source=jmc_src(it), stream=it["stream"],
                           n_failing_cases=len(sem_fail), text_differs_from_model=(i in bad),
                           note="the functions emitted by the real compiler, run in mcvm from `init`, "
                                "against the JavaScript meaning of the source"))
@@ -1104,7 +1192,7 @@ def check_programs(ck, items, tier, what):
 
 
 def jmc_src(it):
-    return it.get("src") or prog_src(it["prog"])
+    return it.get("src") or (pack_src(it) if it.get("more") else prog_src(it["prog"]))
 
 
 def replay_file(path, prop):
@@ -1123,8 +1211,9 @@ def replay_file(path, prop):
         return 1
     init = {tuple(k.split(" ", 1)): v for k, v in rp["failure"].get("init", {}).items()}
     body = to_tuples(rp["program"])
-    f, *_ = semantic_failure(body, real_functions(res), cert, [init])
-    it = Interp(init, cert["VAR"])
+    more = {n: to_tuples(b) for n, b in (rp.get("more") or {}).items()}
+    f, *_ = semantic_failure(body, real_functions(res), cert, [init], funcs=more)
+    it = Interp(init, cert["VAR"], funcs=more)
     try:
         it.run(body)
         print("--- init", rp["failure"].get("init"), "\n--- expected trace", it.trace)
@@ -1142,7 +1231,7 @@ def to_tuples(x):
     """JSON round trip turns tuples into lists; restore the tuple/list structure of program trees"""
     def stmt(s):
         k = s[0]
-        if k in ("say", "set", "add", "sub"):
+        if k in ("say", "set", "add", "sub", "call"):
             return tuple(s)
         if k == "if":
             return ("if", [(cond(c), body(b)) for c, b in s[1]], None if s[2] is None else body(s[2]))
